@@ -2,6 +2,7 @@ package props
 
 import (
 	"fmt"
+	"math"
 	"math/rand"
 	"strings"
 
@@ -376,6 +377,50 @@ func c19Builder(st []c19Key, variant int) fpgo.SortDescriptorsBuilder[c19DRec] {
 	return b
 }
 
+// builders are values: several builders derived from ONE prefix builder (0..2 keys) are independent of each other.
+// For every prefix stack, all its one-key extensions are built from the same prefix value first, then each fork sorts.
+func c19Forks(e *c19Env, lists [][]c19DRec, stacks [][]c19Key) {
+	byPrefix := map[string][][]c19Key{}
+	var order []string
+	for _, st := range stacks {
+		key := c19StackString(st[:len(st)-1])
+		if _, ok := byPrefix[key]; !ok {
+			order = append(order, key)
+		}
+		byPrefix[key] = append(byPrefix[key], st)
+	}
+	extend := func(b fpgo.SortDescriptorsBuilder[c19DRec], k c19Key) fpgo.SortDescriptorsBuilder[c19DRec] {
+		one := c19Builder([]c19Key{k}, 0)
+		return b.ThenWith(one.GetSortDescriptors()...)
+	}
+	for pi, key := range order {
+		exts := byPrefix[key]
+		prefix := c19Builder(exts[0][:len(exts[0])-1], 0)
+		forks := make([]fpgo.SortDescriptorsBuilder[c19DRec], len(exts))
+		for i, st := range exts {
+			if i%2 == 0 {
+				forks[i] = extend(prefix, st[len(st)-1])
+			} else if last := st[len(st)-1]; last.field {
+				forks[i] = prefix.ThenWithFieldName(fmt.Sprintf("K%d", last.key), last.asc)
+			} else {
+				forks[i] = extend(prefix, last)
+			}
+		}
+		for i, st := range exts {
+			st, b := st, forks[i]
+			in := lists[(pi+i)%len(lists)]
+			e.run("SortDescriptorsBuilder forked from a shared prefix", c19StackString(st), in, len(in) >= 2, func() string {
+				out := b.ToSortedList(in...)
+				less := func(a, b c19DRec) bool { return c19RefCompare(a, b, st) < 0 }
+				if m := c19CheckSorted(in, out, func(r c19DRec) int { return r.ID }, less, false); m != "" {
+					return strings.Replace(m, "|", "|builder forked from the prefix ["+key+"] together with "+fmt.Sprint(len(exts)-1)+" siblings: ", 1)
+				}
+				return ""
+			})
+		}
+	}
+}
+
 func c19DescriptorSorts(e *c19Env, lists [][]c19DRec, stacks [][]c19Key) {
 	parallelFor(len(lists), func(w, li int) {
 		in := lists[li]
@@ -469,7 +514,20 @@ func runC19(c *core.Ctx) {
 		}
 		dl = append(dl, l)
 	}
+	// keys at the extremes of their type (sentinels such as MaxInt64 / MinInt64 next to small numbers, +-2^62 pairs,
+	// infinities and the smallest denormals for the float key)
+	extremeInts := []int{math.MaxInt64, math.MinInt64, math.MaxInt64 - 1, math.MinInt64 + 1, 1 << 62, -(1 << 62), -1, 0, 1, math.MaxInt32, math.MinInt32}
+	extremeFloats := []float64{math.Inf(1), math.Inf(-1), math.MaxFloat64, -math.MaxFloat64, math.SmallestNonzeroFloat64, -math.SmallestNonzeroFloat64, 0, 1}
+	for i := 0; i < c.Pick(150, 3000); i++ {
+		l := make([]c19DRec, 2+rng.Intn(12))
+		for j := range l {
+			l[j] = c19DRec{K1: fpgo.NewComparableOrdered(extremeInts[rng.Intn(len(extremeInts))]), K2: fpgo.NewComparableString([]string{"", "a", "b", "\xff"}[rng.Intn(4)]),
+				K3: fpgo.NewComparableOrdered(extremeFloats[rng.Intn(len(extremeFloats))]), ID: j}
+		}
+		dl = append(dl, l)
+	}
 	stacks := c19Stacks()
+	c19Forks(e, dl[len(dl)-40:], stacks)
 	c19DescriptorSorts(e, dl, stacks)
 	c.Count("descriptor_lists", int64(len(dl)))
 	c.Count("descriptor_stacks", int64(len(stacks)))
@@ -485,7 +543,7 @@ func init() {
 			return core.Meta{
 				Level: "exploration",
 				Rule: "records carry a unique id = input position. Comparator sorts (Sort, SortSlice, Stream.Sort, Stream.SortByIndex and the interface{} twins; SortOrdered/Ascending/Descending on int/string/float64): every list of length 0..L over keys {0,1,2} (L=6 quick, 8 thorough) plus PRNG lists up to 200, five comparators incl. composite and all-equal; oracle = permutation + no pair out of order (all pairs) + stability (all pairs) + input unmodified for the non-in-place forms. " +
-					"Descriptor sorts (SortedListBySortDescriptors, builder.ToSortedList, SortBySortDescriptors, builder.Sort): all 492 stacks of 1..3 distinct keys x direction mixes x {transformer, field-name} with ComparableOrdered[int], ComparableString, ComparableOrdered[float64] keys over all lists up to length 2 (3) of 12 record values plus PRNG lists, field-name stacks also on a second record type that has the same field names at other positions; oracle = permutation ordered under the reference lexicographic comparison. distinct_nontrivial = enumerated (api, comparator/stack, list) cases with >= 2 elements",
+					"Descriptor sorts (SortedListBySortDescriptors, builder.ToSortedList, SortBySortDescriptors, builder.Sort): all 492 stacks of 1..3 distinct keys x direction mixes x {transformer, field-name} with ComparableOrdered[int], ComparableString, ComparableOrdered[float64] keys over all lists up to length 2 (3) of 12 record values plus PRNG lists, field-name stacks also on a second record type that has the same field names at other positions; PRNG lists with keys at the extremes of their type (Max/MinInt64, +-2^62, +-Inf, denormals); builders forked from one shared prefix builder (all one-key extensions of every 0..2-key prefix built first, then each sorts); oracle = permutation ordered under the reference lexicographic comparison. distinct_nontrivial = enumerated (api, comparator/stack, list) cases with >= 2 elements",
 				Assumptions: []string{"only strict comparators are generated (sort.SliceStable's contract)", "no stability claim for descriptor sorts", "descriptor keys are never nil"},
 				Exhaustive:  true,
 			}
